@@ -180,6 +180,10 @@ class Verifier(Engine):
                 return Py("bound", (base, attr))
             if self.reg.contract_for("ext", "%s.%s" % (cname, attr)) is not None or cname == "ReMatch":
                 return Py("bound", (base, attr))
+            # a nested class reached through an instance (self.Commit): declared with qual "Outer.Inner"
+            for nd in self.reg.classes.values():
+                if getattr(nd, "qual", None) == "%s.%s" % (cname, attr):
+                    return Py("class", (nd.file, nd.name))
             raise Unsupported("attribute %s.%s is neither a declared field nor a member" % (cname, attr))
         if t_.kind == "val" and T.value_class_of_sort(t_.args[0]) is not None:
             cname, vfields = T.value_class_of_sort(t_.args[0])
